@@ -46,6 +46,11 @@ class UserAddEdge(ActionGroup):
                 f"Target node {target} not in solution yet - must be added before edge"
             )
 
+        if self.tracks.get_time(source) >= self.tracks.get_time(target):
+            raise InvalidActionError(
+                f"Cannot add edge {edge}: source must be earlier in time than target"
+            )
+
         # Check if making a merge. If yes and force, remove the other edge and update
         # track ids.
         in_degree_target = self.tracks.graph.in_degree(target)
